@@ -653,6 +653,8 @@ var execPkgPrefixes = []string{
 var execPkgs = map[string]bool{
 	"errors":                        true,
 	"internal/stringslite":          true,
+	"maps":                          true,
+	"iter":                          true,
 	"slices":                        true,
 	"cmp":                           true,
 	"sort":                          true,
